@@ -22,7 +22,22 @@ Definition re_body (c : cfg) (ast : expr) : str :=
   end.
 Definition re_raw (c : cfg) (ast : expr) : str :=
   re_flag c ++ re_caret c ++ re_body c ast ++ re_dollar c.
-Definition hv (x : cp) : str := if mem_cp x verbose_ws then esc_unicode x else [x].
+Definition hv (x : cp) : str := if mem_cp x verbose_ws then esc_u4 x else [x].
+
+(* a property of characters that holds of \ u and of hex digits holds of \uXXXX *)
+Lemma esc_u4_forall : forall (P : cp -> Prop) x,
+    P 92 -> P 117 -> (forall y, hex_range y -> P y) -> Forall P (esc_u4 x).
+Proof.
+  intros P x H1 H2 H3. unfold esc_u4. cbv zeta.
+  apply Forall_app. split; [repeat constructor; assumption|].
+  apply Forall_app. split.
+  - apply Forall_forall. intros y Hy. apply repeat_spec in Hy. subst y.
+    apply H3. unfold hex_range. lia.
+  - eapply Forall_impl; [|apply hex_of_N_range]. exact H3.
+Qed.
+
+Lemma esc_u4_nonnil : forall x, esc_u4 x <> [].
+Proof. intros x. unfold esc_u4. discriminate. Qed.
 Definition re_nv (c : cfg) (ast : expr) : str :=
   replace_cp 12 [92; 102] (replace_cp 11 [92; 118] (re_raw c ast)).
 Definition re_v (c : cfg) (ast : expr) : str :=
@@ -187,8 +202,8 @@ Proof.
     rewrite forallb_forall in A. specialize (A x Hx). apply negb_true_iff in A.
     rewrite A. reflexivity.
   - intros x. unfold hv. destruct (mem_cp x verbose_ws); [right|left; reflexivity].
-    split; [unfold esc_unicode; discriminate|].
-    apply esc_unicode_forall; try (unfold img_char_ok; repeat split; discriminate).
+    split; [apply esc_u4_nonnil|].
+    apply esc_u4_forall; try (unfold img_char_ok; repeat split; discriminate).
     intros y Hy. unfold hex_range in Hy. unfold img_char_ok. lia.
 Qed.
 
